@@ -1,0 +1,35 @@
+//go:build verif
+
+// Contracts for the verifier in /verif (comment-only file; contributes no declarations).
+package processorretry
+
+//@ pure APIStreamI.GetSequenceID
+//@ pure APIStreamI.GetContext
+//@ pure LunarContextI.GetFlowContext
+//@ dropped retryProcessor).updateMetrics
+
+// counter key of a sequence: Sprintf("%s::%s::%s", name, "retry_counter", seq) - same name and infix, so injective in seq, never empty
+//@ axiom[retry-key-inj]      forall(n, string, forall(a, string, forall(b, string, sprintf("%s::%s::%s", n, "retry_counter", a) == sprintf("%s::%s::%s", n, "retry_counter", b) ==> a == b)))
+//@ axiom[retry-key-nonempty] forall(n, string, forall(a, string, sprintf("%s::%s::%s", n, "retry_counter", a) != ""))
+
+//@ ghost func fctx(s public_types.APIStreamI) *lunarcontext.contextMemory = s.GetContext().GetFlowContext().(*lunarcontext.contextMemory)
+//@ ghost func rkey(p *retryProcessor, seq string) string = sprintf("%s::%s::%s", p.name, "retry_counter", seq)
+//@ ghost func hasR(p *retryProcessor, s public_types.APIStreamI, seq string) bool = smapin(fctx(s).ctx, rkey(p, seq))
+//@ ghost func valR(p *retryProcessor, s public_types.APIStreamI, seq string) int = smapget(fctx(s).ctx, rkey(p, seq)).(int)
+//@ ghost func cntR(p *retryProcessor, s public_types.APIStreamI, seq string) int = ite(hasR(p, s, seq), valR(p, s, seq), 0)
+// data invariant of the flow context: a stored retry counter is an int between 1 and the configured attempts
+//@ ghost func retryInv(p *retryProcessor, s public_types.APIStreamI) bool = forall(q, string, hasR(p, s, q) ==> typeis(smapget(fctx(s).ctx, rkey(p, q)), int) && 1 <= valR(p, s, q) && valR(p, s, q) <= p.attempts)
+
+//@ func (*retryProcessor).Execute
+//@   prop C17
+//@   requires p.attempts >= 1 && p.metaData != nil
+//@   requires typeis(APIStream.GetContext().GetFlowContext(), *lunarcontext.contextMemory) && fctx(APIStream) != nil
+//@   requires[inv] retryInv(p, APIStream)
+//@   allocates RetryRequestAction
+//@   modifies smapof(fctx(APIStream).ctx), now
+//@   ensures[inv-preserved] retryInv(p, APIStream)
+//@   ensures[ok]           result1 == nil && (result0.Name == "retry" || result0.Name == "failed")
+//@   ensures[retry-iff]    result0.Name == "retry" <==> old(cntR(p, APIStream, APIStream.GetSequenceID())) + 1 <= p.attempts
+//@   ensures[count]        result0.Name == "retry" ==> cntR(p, APIStream, APIStream.GetSequenceID()) == old(cntR(p, APIStream, APIStream.GetSequenceID())) + 1
+//@   ensures[fail-forgets] result0.Name == "failed" ==> !hasR(p, APIStream, APIStream.GetSequenceID())
+//@   ensures[frame]        forall(q, string, q != APIStream.GetSequenceID() ==> (hasR(p, APIStream, q) <==> old(hasR(p, APIStream, q))) && valR(p, APIStream, q) == old(valR(p, APIStream, q)))
